@@ -54,6 +54,10 @@ def h_prop_reject(cname, t, n):
         s = mk(K, cls, x)
         v = K.int('v')
         r = call(lambda: set_attr(s, t, v))
+        if n % unit:
+            # endian types need whole bytes: the assignment must be refused whatever the value
+            return K.check(r.raised(ValueError) and same(raw(s), x), 'property assignment of a whole-byte type to a bitstring that is not a whole number of bytes must raise and change nothing',
+                           exc=r.excname, got=raw(s), length_after=len(s))
         if V.in_range(v, n, signed):
             return K.check(r.ok and V.canonical_int(K, raw(s), v, n, signed, order), 'in-range property assignment', exc=r.excname)
         return K.check(r.raised(ValueError) and same(raw(s), x), 'rejected property assignment must raise ValueError and leave the target unchanged', exc=r.excname, got=raw(s))
@@ -218,12 +222,21 @@ def h_window(cname, src, k):
             b = K.bytes('b', k)
             data = O.empty()
             data.frombytes(b)
+        elif src == 'bytesio':
+            import io
+            content = bytes((0xa5, 0x3c, 0x0f, 0xf1)[:k])       # a BytesIO holds concrete bytes (C level); offsets and lengths are symbolic
+            data = O.empty()
+            data.frombytes(content)
+            b = None
         else:
             data = K.bits('data', total)
             b = data.copy()
         off = K.opt_int('offset')
         ln = K.opt_int('length')
-        r = call(lambda: cls(**{src: b}, length=ln, offset=off))
+        if src == 'bytesio':
+            r = call(lambda: cls(io.BytesIO(content), length=ln, offset=off))
+        else:
+            r = call(lambda: cls(**{src: b}, length=ln, offset=off))
         o = 0 if off is None else off
         valid = (o >= 0) and (o <= total)
         if ln is not None:
@@ -237,6 +250,33 @@ def h_window(cname, src, k):
         oo = K.conc(o)
         ll = total - oo if ln is None else K.conc(ln)
         return K.check(same(raw(r.value), data[oo:oo + ll]), 'window content', got=raw(r.value), offset=oo, length=ll)
+    return h
+
+
+def h_array_reject(dtype, w, signed, how):
+    """setting Array items with a value that does not fit raises and changes nothing (also when earlier items of the same call did fit)"""
+    def h(K):
+        import bitstring
+        k = 4
+        x = K.bits('data', w * k)
+        a = bitstring.Array(dtype)
+        a.data = mk(K, bitstring.BitArray, x)
+        good = K.int('good', 0, 1)
+        bad = K.int('bad')
+        K.assume(not V.in_range(bad, w, signed))
+        ops = {
+            'setitem': lambda: a.__setitem__(1, bad),
+            'slice-step1': lambda: a.__setitem__(slice(0, 2), [good, bad]),
+            'slice-ext': lambda: a.__setitem__(slice(0, 4, 2), [good, bad]),
+            'slice-ext-neg': lambda: a.__setitem__(slice(3, None, -2), [good, bad]),
+            'slice-ext-count': lambda: a.__setitem__(slice(0, 4, 2), [good, good, good]),
+            'extend': lambda: a.extend([good, bad]),
+            'append': lambda: a.append(bad),
+            'insert': lambda: a.insert(1, bad),
+            'init': lambda: bitstring.Array(dtype, [good, bad]),
+        }
+        r = call(ops[how])
+        return K.check(r.raised(ValueError) and same(raw(a.data), x), 'a value that does not fit must raise ValueError and leave the Array unchanged', how=how, exc=r.excname, got=raw(a.data), before=x)
     return h
 
 
@@ -256,6 +296,9 @@ def conditions(tier):
                 add(f'C15.int[{c},{t},n={n}]', h_int_total(c, t, n), f'every Python int value for {t}:{n}; 9 creation routes', V.D_INT, t=t, n=n)
             if n in (1, 8, 9, 16, 64):
                 add(f'C15.prop-reject[BitArray,{t},n={n}]', h_prop_reject('BitArray', t, n), f'all {n}-bit targets x every Python int value', V.D_INT, t=t, n=n)
+        if unit == 8:
+            for n in ([12] if q else [1, 7, 12, 20]):
+                add(f'C15.prop-reject[BitArray,{t},n={n}]', h_prop_reject('BitArray', t, n), f'all {n}-bit targets (not a whole number of bytes) x every Python int value', V.D_INT, t=t, n=n)
         add(f'C15.length[Bits,{t}]', h_length('Bits', t, -3, 20 if q else 70), f'lengths in [-3,{20 if q else 70}] (solver-enumerated) for {t}', V.D_INT, t=t)
     for t in ('float', 'floatle', 'floatne', 'floatbe'):
         if q and t not in ('float', 'floatle'):
@@ -268,8 +311,12 @@ def conditions(tier):
     for t in ('hex', 'oct', 'bin'):
         for k in ([1, 2] if q else [1, 2, 3]):
             add(f'C15.digits[Bits,{t},k={k}]', h_bad_digits('Bits', t, k), f'every string of {k} printable ASCII characters (prefix letters and underscore excluded)', V.D_TEXT, t=t, k=k)
-    for src in ('bytes', 'bitarray'):
-        for k in ([0, 2] if q else [0, 1, 2, 3]):
+    for dtype, w, signed in ([('uint5', 5, False), ('int8', 8, True)] if q else [('uint5', 5, False), ('int8', 8, True), ('uint1', 1, False), ('int3', 3, True), ('uintle16', 16, False)]):
+        for how in ('setitem', 'slice-step1', 'slice-ext', 'slice-ext-neg', 'slice-ext-count', 'extend', 'append', 'insert', 'init'):
+            add(f'C15.array-reject[{dtype},{how}]', h_array_reject(dtype, w, signed, how), f'all data of 4 items x every out-of-range Python int (and an in-range value set before it in the same call)',
+                ['bitstring.array_:Array.__setitem__', 'bitstring.array_:Array.extend', 'bitstring.array_:Array.append', 'bitstring.array_:Array.insert', 'bitstring.array_:Array._create_element'], dtype=dtype)
+    for src in ('bytes', 'bitarray', 'bytesio'):
+        for k in (([0, 2] if src != 'bytesio' else [3]) if q else [0, 1, 2, 3]):
             for c in (['Bits'] if q else ['Bits', 'BitStream']):
                 add(f'C15.window[{c},{src},k={k}]', h_window(c, src, k), f'all {k}-byte sources x every Python int offset and length (or None)',
                     ['bitstring.bits:Bits._setbytes_with_truncation', 'bitstring.bits:Bits._setbitarray', 'bitstring.bits:Bits._initialise'], k=k)
